@@ -45,7 +45,8 @@ Title(cls, i) ==
     [] cls = 8  -> <<>>                                       \* empty title
     [] cls = 9  -> <<9, 10>>                                  \* only control characters
     [] cls = 10 -> <<254, 255, 8364, 8226, Dg(i), 32>>        \* starts like a BOM; euro, bullet; trailing blank
-NTitle == 10
+    [] cls = 11 -> <<100, 92, 57, 117, 112, 40>>              \* "d\9up(": shared by several items and needing string escapes
+NTitle == 11
 
 Colour(c) == CASE c = 0 -> <<>>
                [] c = 1 -> <<1000, 0, 0>>
@@ -58,7 +59,8 @@ Combos == << [t |-> 1,  s |-> 0, c |-> 0], [t |-> 2,  s |-> 1, c |-> 1], [t |-> 
              [t |-> 4,  s |-> 3, c |-> 3], [t |-> 5,  s |-> 1, c |-> 4], [t |-> 6,  s |-> 2, c |-> 0],
              [t |-> 7,  s |-> 0, c |-> 1], [t |-> 8,  s |-> 3, c |-> 0], [t |-> 7,  s |-> 3, c |-> 2],
              [t |-> 9,  s |-> 0, c |-> 3], [t |-> 10, s |-> 2, c |-> 4], [t |-> 1,  s |-> 1, c |-> 2],
-             [t |-> 5,  s |-> 0, c |-> 0], [t |-> 3,  s |-> 3, c |-> 1] >>
+             [t |-> 5,  s |-> 0, c |-> 0], [t |-> 3,  s |-> 3, c |-> 1], [t |-> 11, s |-> 2, c |-> 0] >>
+DupCombos == {7, 15}      \* the combinations whose title does not depend on the item's position
 NC == Len(Combos)
 
 ---------------------------------------------------------------------------
@@ -111,7 +113,7 @@ Init == nodes = <<>> /\ target \in Targets /\ mode \in Modes
 (* page of a new node = lower bound + step, lower bound = page of the previous sibling, else of the parent, else 1. *)
 (* "free": step in {-1, 0, 1}; pages 0 and NPages+1 (not in the document) and decreasing pages occur.              *)
 (* "rot" : steps follow DeltaSeq and stay inside the document, so that every shape is importable.                  *)
-(* "dup" : every item has the same title (combination 7), steps follow DeltaSeq: items sharing one destination name.  *)
+(* "dup" : every item has the same title (one of DupCombos), steps follow DeltaSeq: items sharing one destination name. *)
 (* "sim" : every node chooses its combination freely, steps in {0, 1} inside the document (for -simulate).         *)
 AddNode ==
   /\ Len(nodes) < (IF target # 0 THEN target ELSE IF mode = "free" THEN FreeMax ELSE MaxNodes)
@@ -128,8 +130,9 @@ AddNode ==
              THEN \E k \in 1..NC : \E dl \in {0, 1} :
                     nodes' = Append(nodes, [d |-> d, k |-> k, p |-> IF lb + dl <= NPages THEN lb + dl ELSE lb])
              ELSE IF mode = "dup"
-             THEN LET dl == RotDelta(7, i + 1)
-                  IN nodes' = Append(nodes, [d |-> d, k |-> 7, p |-> IF lb + dl <= NPages THEN lb + dl ELSE lb])
+             THEN \E k \in (IF i = 1 THEN DupCombos ELSE {nodes[1].k}) :
+                  LET dl == RotDelta(7, i + 1)
+                  IN nodes' = Append(nodes, [d |-> d, k |-> k, p |-> IF lb + dl <= NPages THEN lb + dl ELSE lb])
              ELSE \E k \in (IF i = 1 THEN 1..NCRot ELSE {Rot(nodes[1].k, i)}) :
                     LET dl == RotDelta(IF i = 1 THEN k ELSE nodes[1].k, i)
                     IN nodes' = Append(nodes, [d |-> d, k |-> k, p |-> IF lb + dl <= NPages THEN lb + dl ELSE lb])
